@@ -513,6 +513,13 @@ class C11:
                 op["tree"] = rng.randrange(len(trees))
                 op["data"] = rng.randrange(len(datas))
             ops.append(op)
+            if k == "mutate" and rng.chance(0.6):
+                # render / parse, re-configure the environment, then the SAME text again through the same
+                # entry point: nothing remembered from before the change may answer
+                prev = [o for o in ops[:-1] if o["op"] in ("render", "parse") and o["spec"] == op["spec"]]
+                if prev:
+                    uid += 1
+                    ops.append({**prev[-1], "uid": uid})
         sc = {"specs": specs, "delim_sets": delim_sets, "trees": trees, "datas": datas, "ops": ops,
               # how the environments of this run get their loader: each its own (None), ONE shared plain
               # choice loader over caching delegates, or each its own call of make_file_system_loader()
